@@ -4,6 +4,7 @@ package vault
 
 import (
 	"context"
+	"encoding/base32"
 	"encoding/base64"
 	"encoding/hex"
 	"fmt"
@@ -13,12 +14,19 @@ import (
 
 	"github.com/openbao/openbao/sdk/v2/helper/verifx"
 	"github.com/openbao/openbao/sdk/v2/logical"
+	credAppRole "github.com/openbao/openbao/v2/internal/builtin/credential/approle"
 	credUserpass "github.com/openbao/openbao/v2/internal/builtin/credential/userpass"
 	logicalKv "github.com/openbao/openbao/v2/internal/builtin/logical/kv"
+	logicalPki "github.com/openbao/openbao/v2/internal/builtin/logical/pki"
+	logicalSsh "github.com/openbao/openbao/v2/internal/builtin/logical/ssh"
+	logicalTotp "github.com/openbao/openbao/v2/internal/builtin/logical/totp"
+	logicalTransit "github.com/openbao/openbao/v2/internal/builtin/logical/transit"
 	"github.com/openbao/openbao/v2/internal/helper/namespace"
 	"github.com/openbao/openbao/v2/internal/vault/barrier"
 	"pgregory.net/rapid"
 )
+
+func base32Std(s string) string { return base32.StdEncoding.EncodeToString([]byte(s)) }
 
 // c01Allowed reports whether a physical key may hold a record that did not pass through the barrier:
 // the fixed set of bootstrap records named by the property statement (also below namespaces/<uuid>/).
@@ -111,13 +119,13 @@ func (w *c01World) scan() (sig, msg string) {
 }
 
 func TestVerif_C01_ServerCanaries(t *testing.T) {
-	rec := verifx.NewRecorder("C01", "server-canaries", "rapid state machine over the public API of a real core on a recording physical backend with kv-v1, kv-v2, cubbyhole, userpass and a child namespace: every value position the workload controls (secret data, policy text, token metadata and display names, entity metadata, mount descriptions, userpass passwords, wrapped responses) carries a fresh high-entropy canary; also sys/rotate, sys/rotate/root, seal/unseal; after every step every physical put since the previous step must (1) contain no canary in clear, base64 or hex and (2) either have a key from the fixed bootstrap allow-list or decrypt with the barrier under exactly that key; non-trivial = the step wrote at least one encrypted record containing a canary")
+	rec := verifx.NewRecorder("C01", "server-canaries", "rapid state machine over the public API of a real core on a recording physical backend with kv-v1, kv-v2, cubbyhole, userpass, approle, transit, pki, ssh, totp and a child namespace: every value position the workload controls (secret data, policy and password-policy text, token metadata and display names, entity / group / namespace metadata, mount descriptions, userpass passwords, approle secret ids, TOTP shared keys, wrapped responses) and key material the server generates and can be made to show (exported CA private keys, transit key backups) carries a fresh high-entropy canary; also sys/rotate, sys/rotate/root, seal/unseal; after every step every physical put since the previous step must (1) contain no canary in clear, base64 or hex and (2) either have a key from the fixed bootstrap allow-list or decrypt with the barrier under exactly that key; non-trivial = the step wrote at least one encrypted record containing a canary")
 	defer rec.Flush()
 	rapid.Check(t, func(rt *rapid.T) {
 		defer recoverWedged(rec)
 		tc := mustBoot(t, coreOpts{transactional: rapid.Bool().Draw(rt, "transactionalStorage"),
-			logical:    map[string]logical.Factory{"kv": logicalKv.Factory},
-			credential: map[string]logical.Factory{"userpass": credUserpass.Factory}})
+			logical:    map[string]logical.Factory{"kv": logicalKv.Factory, "transit": logicalTransit.Factory, "pki": logicalPki.Factory, "ssh": logicalSsh.Factory, "totp": logicalTotp.Factory},
+			credential: map[string]logical.Factory{"userpass": credUserpass.Factory, "approle": credAppRole.Factory}})
 		w := &c01World{t: t, tc: tc}
 		defer func() { w.tc.shutdown() }()
 		fail := func(sig, msg string) {
@@ -130,6 +138,10 @@ func TestVerif_C01_ServerCanaries(t *testing.T) {
 		tc.mustOK(tc.req(logical.UpdateOperation, "sys/mounts/kv1", tc.root, map[string]any{"type": "kv", "options": map[string]any{"version": "1"}}), "kv1")
 		tc.mustOK(tc.req(logical.UpdateOperation, "sys/mounts/kv2", tc.root, map[string]any{"type": "kv", "options": map[string]any{"version": "2"}}), "kv2")
 		tc.mustOK(tc.req(logical.UpdateOperation, "sys/auth/up", tc.root, map[string]any{"type": "userpass"}), "userpass")
+		for _, m := range []string{"transit", "pki", "ssh", "totp"} {
+			tc.mustOK(tc.req(logical.UpdateOperation, "sys/mounts/"+m, tc.root, map[string]any{"type": m}), m)
+		}
+		tc.mustOK(tc.req(logical.UpdateOperation, "sys/auth/ar", tc.root, map[string]any{"type": "approle"}), "approle")
 		tc.mustOK(tc.req(logical.UpdateOperation, "sys/namespaces/n1", tc.root, nil), "namespace")
 		ns, err := tc.c.namespaceStore.GetNamespaceByPath(tc.ctx, "n1/")
 		if err != nil || ns == nil {
@@ -202,6 +214,69 @@ func TestVerif_C01_ServerCanaries(t *testing.T) {
 				tc.req(logical.UpdateOperation, "kv1/w", w.tok, map[string]any{"v": c})
 				r := tc.do(&logical.Request{Operation: logical.ReadOperation, Path: "kv1/w", ClientToken: w.tok, WrapInfo: &logical.RequestWrapInfo{TTL: 5 * time.Minute}})
 				w.logf("wrapped read -> %v", r)
+			},
+			// engines that persist key material or credentials of their own: whatever they store has to pass the barrier
+			"transit": func(rt *rapid.T) {
+				k := fmt.Sprintf("transit/keys/t%d", fairIndex(rt, "key", 3))
+				typ := []string{"aes256-gcm96", "ed25519", "ecdsa-p256", "hmac"}[fairIndex(rt, "type", 4)]
+				r := tc.req(logical.UpdateOperation, k, tc.root, map[string]any{"type": typ, "exportable": true, "allow_plaintext_backup": true})
+				if fairIndex(rt, "rotate", 2) == 0 {
+					tc.req(logical.UpdateOperation, k+"/rotate", tc.root, nil)
+				}
+				// the exported key material is a secret value the server holds: it must not be found in the store either
+				if er := tc.req(logical.ReadOperation, strings.Replace(k, "transit/keys/", "transit/backup/", 1), tc.root, nil); er.ok() && er.resp != nil {
+					if b, _ := er.resp.Data["backup"].(string); len(b) > 40 {
+						w.canaries = append(w.canaries, b[20:60])
+					}
+				}
+				w.logf("transit key %s -> %v", typ, r)
+			},
+			"pki": func(rt *rapid.T) {
+				c := w.canary(rt)
+				r := tc.req(logical.UpdateOperation, "pki/root/generate/exported", tc.root, map[string]any{"common_name": "ca.example", "key_type": "ec", "key_bits": 256, "ou": c, "issuer_name": fmt.Sprintf("i%d", len(w.canaries))})
+				if r.ok() && r.resp != nil {
+					// the CA's private key (PEM body) is secret material of the server
+					if pk, _ := r.resp.Data["private_key"].(string); len(pk) > 120 {
+						body := strings.ReplaceAll(pk, "\n", "")
+						w.canaries = append(w.canaries, body[40:80])
+					}
+				}
+				rr2 := tc.req(logical.UpdateOperation, "pki/roles/r", tc.root, map[string]any{"allow_any_name": true, "ou": c})
+				w.logf("pki root + role -> %v %v", r, rr2)
+			},
+			"ssh": func(rt *rapid.T) {
+				r := tc.req(logical.UpdateOperation, "ssh/config/ca", tc.root, map[string]any{"generate_signing_key": true, "key_type": "ed25519"})
+				w.logf("ssh ca -> %v", r)
+				tc.req(logical.DeleteOperation, "ssh/config/ca", tc.root, nil)
+			},
+			"totp": func(rt *rapid.T) {
+				c := w.canary(rt)
+				// the shared TOTP key is the secret (base32 of the canary)
+				key := strings.TrimRight(base32Std(c), "=")
+				w.canaries = append(w.canaries, key)
+				r := tc.req(logical.UpdateOperation, fmt.Sprintf("totp/keys/k%d", fairIndex(rt, "k", 3)), tc.root, map[string]any{"key": key, "issuer": "verif", "account_name": c})
+				w.logf("totp key -> %v", r)
+			},
+			"approle": func(rt *rapid.T) {
+				c := w.canary(rt)
+				r := tc.req(logical.UpdateOperation, "auth/ar/role/app", tc.root, map[string]any{"token_policies": "default", "bind_secret_id": true})
+				sr := tc.req(logical.UpdateOperation, "auth/ar/role/app/custom-secret-id", tc.root, map[string]any{"secret_id": c, "metadata": `{"m":"` + c + `"}`})
+				w.logf("approle role + custom secret id -> %v %v", r, sr)
+			},
+			"identity-group": func(rt *rapid.T) {
+				c := w.canary(rt)
+				r := tc.req(logical.UpdateOperation, "identity/group", tc.root, map[string]any{"name": fmt.Sprintf("g%d", fairIndex(rt, "n", 3)), "metadata": map[string]any{"m": c}})
+				w.logf("group -> %v", r)
+			},
+			"password-policy": func(rt *rapid.T) {
+				c := w.canary(rt)
+				r := tc.req(logical.UpdateOperation, "sys/policies/password/pp", tc.root, map[string]any{"policy": "# " + c + "\nlength = 20\nrule \"charset\" { charset = \"abcdefghij\" }"})
+				w.logf("password policy -> %v", r)
+			},
+			"namespace-metadata": func(rt *rapid.T) {
+				c := w.canary(rt)
+				r := tc.req(logical.UpdateOperation, "sys/namespaces/n1", tc.root, map[string]any{"custom_metadata": map[string]any{"m": c}})
+				w.logf("namespace metadata -> %v", r)
 			},
 			"rotate": func(rt *rapid.T) {
 				p := []string{"sys/rotate", "sys/rotate/root"}[fairIndex(rt, "which", 2)]
